@@ -1,4 +1,4 @@
-import Ledger.Proofs.MachineTx
+import Ledger.Proofs.MachineTxSem
 
 /-!
 C25 — A postings request is recorded exactly as submitted.
@@ -17,54 +17,8 @@ variable {cfg : Cfg}
 theorem statement_roundtrip (env : Env) (accs : List String) (mons : List (String × Int))
     (force : Bool) (p : TxPosting) (hb : txEnvOK env accs mons [p] = true) (st st' : State)
     (h : evalStmt cfg env (txStmt accs mons force p) st = .ok st') :
-    st'.postings = st.postings ++ [p] := by
-  simp only [txEnvOK, Bool.and_true, Bool.and_eq_true, Bool.or_eq_true, decide_eq_true_eq] at hb
-  obtain ⟨⟨hm, hs⟩, hd⟩ := hb
-  have hmon : evalExpr env (.var (monVar (indexOfMon mons p.asset p.amount))) =
-      .ok (.monetary p.asset (some p.amount)) := by
-    split at hm
-    · rename_i a v heq
-      simp only [Bool.and_eq_true, decide_eq_true_eq] at hm
-      rw [heq, hm.1, hm.2]
-    · cases hm
-  have hdst : evalExpr env (if p.destination = "world" then Expr.acct "world"
-      else .var (accVar (indexOfStr accs p.destination))) = .ok (.account p.destination) := by
-    by_cases hw : p.destination = "world"
-    · simp [hw, evalExpr]
-    · simp only [hw, if_false]
-      rcases hd with hd | hd
-      · exact absurd hd hw
-      · split at hd
-        · rename_i a heq
-          simp only [decide_eq_true_eq] at hd
-          rw [heq, hd]
-        · cases hd
-  have hdst' : (if p.destination = "world" then Dest.account (.acct "world")
-      else Dest.account (.var (accVar (indexOfStr accs p.destination)))) =
-      Dest.account (if p.destination = "world" then Expr.acct "world"
-        else .var (accVar (indexOfStr accs p.destination))) := by
-    split <;> rfl
-  simp only [txStmt, hdst'] at h
-  by_cases hw : p.source = "world"
-  · simp only [hw, if_true] at h
-    refine txStmt_unbounded (srcE := .acct "world") ⟨hmon, rfl, ?_, hdst⟩ (Or.inr ⟨rfl, by simp [Expr.isWorld]⟩) st st' h
-    simp [evalExpr, hw]
-  · simp only [hw, if_false] at h
-    have hsrc : evalExpr env (.var (accVar (indexOfStr accs p.source))) = .ok (.account p.source) := by
-      rcases hs with hs | hs
-      · exact absurd hs hw
-      · split at hs
-        · rename_i a heq
-          simp only [decide_eq_true_eq] at hs
-          rw [heq, hs]
-        · cases hs
-    cases force with
-    | true =>
-      simp only [if_true] at h
-      exact txStmt_unbounded ⟨hmon, rfl, hsrc, hdst⟩ (Or.inl rfl) st st' h
-    | false =>
-      simp only [Bool.false_eq_true, if_false] at h
-      exact txStmt_bounded ⟨hmon, rfl, hsrc, hdst⟩ (by simp [Expr.isWorld]) st st' h
+    st'.postings = st.postings ++ [p] :=
+  txStmt_posts hb st st' h
 
 /-- Running the statements `TxToScriptData` writes for `ps` appends exactly `ps`
     (same order, accounts, assets, amounts, zero amounts included). -/
@@ -77,30 +31,71 @@ theorem statements_roundtrip (env : Env) (accs : List String) (mons : List (Stri
     split at h
     · cases h
     · rename_i st1 h1
-      have hb1 : txEnvOK env accs mons [p] = true := by
-        simp only [txEnvOK, Bool.and_eq_true] at hb ⊢
-        exact ⟨hb.1, trivial⟩
-      have hb2 : txEnvOK env accs mons ps = true := by
-        simp only [txEnvOK, Bool.and_eq_true] at hb
-        exact hb.2
+      obtain ⟨hb1, hb2⟩ := txEnvOK_cons hb
       rw [statements_roundtrip env accs mons force ps hb2 st1 st' h,
         statement_roundtrip env accs mons force p hb1 st st1 h1, List.append_assoc]
       rfl
 
-/-- `postings_roundtrip`: a successful run of the program generated for `ps` records
-    exactly `ps`.  Hypothesis `txEnvOK`: the variables `va{i}` / `vm{j}` resolve to the
-    accounts / monetaries they were generated for (a decidable fact about string
-    formatting and parsing, evaluated on every generated case; not proved in general). -/
-theorem postings_roundtrip (ps : List TxPosting) (force : Bool) (inp : Input) (r : Result)
-    (h : sem cfg (txScript ps force) inp = .ok r) (env : Env)
-    (henv : resolvedEnv cfg (txScript ps force) inp = some env)
-    (hb : txEnvOK env (txAccounts ps []) (txMons ps []) ps = true) : r.postings = ps := by
-  obtain ⟨ds, env', bal, pairs, st, _, hp, hst, rfl⟩ := sem_ok_iff h
-  simp only [resolvedEnv, hp, Option.some.injEq] at henv
-  subst henv
-  have := statements_roundtrip env' (txAccounts ps []) (txMons ps []) force ps hb (initState bal) st
+/-- The variables `va{i}` / `vm{j}` of the generated script resolve to the accounts /
+    monetaries they were generated for, whenever variable resolution succeeds (string
+    formatting / parsing round trip, sorted declarations, distinct names). -/
+theorem generated_variables_resolve (ps : List TxPosting) (force : Bool) (inp : Input)
+    (hv : inp.vars = txVars ps) (env : Env) (bal : Balances) (pairs : List (String × String))
+    (h : prepare cfg (txScript ps force) inp = .ok (env, bal, pairs)) :
+    txEnvOK env (txAccounts ps []) (txMons ps []) ps = true :=
+  txEnvOK_of_prepare hv h
+
+/-- `postings_roundtrip`: a successful run of the program `TxToScriptData` generates for
+    `ps` (with the variables it generates) records exactly `ps` — same order, accounts,
+    assets and amounts, zero amounts included.  No side hypothesis. -/
+theorem postings_roundtrip (ps : List TxPosting) (force : Bool) (inp : Input)
+    (hv : inp.vars = txVars ps) (r : Result)
+    (h : sem cfg (txScript ps force) inp = .ok r) : r.postings = ps := by
+  obtain ⟨ds, env, bal, pairs, st, _, hp, hst, rfl⟩ := sem_ok_iff h
+  have hb := txEnvOK_of_prepare hv hp
+  have := statements_roundtrip env (txAccounts ps []) (txMons ps []) force ps hb (initState bal) st
     (by simpa [txScript] using hst)
   simpa [initState] using this
+
+/-- `postings_fail_iff`: once the request is well-formed enough for the variables to
+    resolve (`prepare` succeeds: valid accounts and assets, non-negative amounts), the run
+    fails with insufficient funds if and only if force is off and applying the postings in
+    order takes some non-world source below zero (`applyPostings` = none); otherwise it
+    succeeds. In particular it never fails when force is set. -/
+theorem postings_fail_iff (ps : List TxPosting) (force : Bool) (inp : Input)
+    (hv : inp.vars = txVars ps)
+    (hprep : ∃ x, prepare cfg (txScript ps force) inp = .ok x) :
+    (sem cfg (txScript ps force) inp = .error (.run "exec" "insufficient") ↔
+      (force = false ∧ applyPostings inp.balance ps = none)) ∧
+    ((∃ r, sem cfg (txScript ps force) inp = .ok r) ↔
+      (force = true ∨ (applyPostings inp.balance ps).isSome)) := by
+  obtain ⟨⟨env, bal, pairs⟩, hp⟩ := hprep
+  obtain ⟨ds, hds⟩ := txScript_typechecks ps force
+  obtain ⟨hok, hnn, hwf, hT⟩ := tx_prepared hv hp
+  have hsem : sem cfg (txScript ps force) inp =
+      match runStmts cfg env (ps.map (txStmt (txAccounts ps []) (txMons ps []) force)) (initState bal) with
+      | .error e => .error e
+      | .ok st => .ok { postings := st.postings, txMeta := st.txMeta, accMeta := st.accMeta, final := st } := by
+    simp only [sem, hds, hp]
+    rfl
+  rw [hsem]
+  cases force with
+  | true =>
+    obtain ⟨st', h2⟩ := txRun_force (cfg := cfg) env (txAccounts ps []) (txMons ps []) ps hok hnn (initState bal)
+    rw [h2]
+    simp
+  | false =>
+    obtain ⟨T, hinv, hsrc⟩ := hT rfl
+    obtain ⟨r1, r2⟩ := txRun_noforce (cfg := cfg) env (txAccounts ps []) (txMons ps []) T ps hok hnn hsrc
+      (initState bal) inp.balance hinv
+    cases ha : applyPostings inp.balance ps with
+    | none =>
+      rw [r1 ha]
+      simp
+    | some b' =>
+      obtain ⟨st', h2⟩ := r2 (by simp [ha])
+      rw [h2]
+      simp
 
 /-! Non-vacuity (kernel-evaluated tests): repeated accounts, a self posting, world on
     either side, a zero amount. -/
@@ -112,9 +107,7 @@ def exInput : Input := { vars := txVars exPostings, balance := fun _ _ => 0, acc
 
 example : postingsOf (sem Cfg.fixed (txScript exPostings false) exInput) = some exPostings := by decide +kernel
 
-example : (match resolvedEnv Cfg.fixed (txScript exPostings false) exInput with
-    | some env => txEnvOK env (txAccounts exPostings []) (txMons exPostings []) exPostings
-    | none => false) = true := by decide +kernel
+example : (prepare Cfg.fixed (txScript exPostings false) exInput).toOption.isSome = true := by decide +kernel
 
 example : (applyPostings (fun _ _ => 0) exPostings).isSome = true := by decide +kernel
 
